@@ -821,9 +821,63 @@ class Controller
       default: break;
     }
     CheckWordAfterExclusiveRelease(t, c, what);
+    CheckWordMatchesModel(t, c, what);
     pend_[t].pre_released_lock = -1;
     pend_[t].pre_released_mode = -1;
     CheckBools(t, r, what);
+  }
+
+  // C07 (and C10 for conversions): with no operation in flight, the mode state in the lock word must be exactly
+  // the grants owned by guards according to the ownership model: a guard that converts to true without a grant, a
+  // grant released twice or never, or a conversion that leaves a wrong mode all show up here.  Uses the documented
+  // word layouts (PessimisticLock: bit63 X, bit62 SIX, bits 0-61 shared count; OptimisticLock: bit63 X, bit62 SIX,
+  // bits 32-61 shared count); MCSLock's word describes only the tail group and is not checked.
+  void
+  CheckWordMatchesModel(int t, const Cmd &c, const std::string &what)
+  {
+    if constexpr (!T::kMcs) {
+      if (failed_) return;
+      for (int u = 0; u < kVT; ++u) {
+        if (pend_[u].active) return;
+      }
+      int ks[2] = {-1, -1};
+      switch (c.op) {
+        case kLock:
+        case kGetVer:
+        case kPrepare: ks[0] = c.k; break;
+        case kReset:
+        case kDtor:
+        case kMoveCtor:
+        case kMoveAssign:
+        case kDowngrade: ks[0] = pend_[t].pre_released_lock; break;
+        case kUpgrade: ks[0] = ms_[t][kKX][c.c].own ? ms_[t][kKX][c.c].lock : -1; break;
+        case kTryLock: ks[0] = ms_[t][kKOG][c.b].lock; break;
+        default: break;
+      }
+      for (int k : ks) {
+        if (k < 0) continue;
+        const auto word = reinterpret_cast<std::atomic<uint64_t> *>(&locks_[k])->load(std::memory_order_acquire);
+        uint64_t s_cnt = 0;
+        if constexpr (T::kOpt) {
+          s_cnt = (word >> 32) & 0x3FFFFFFFULL;
+        } else {
+          s_cnt = word & 0x3FFFFFFFFFFFFFFFULL;
+        }
+        const bool six = (word >> 62) & 1ULL, x = (word >> 63) & 1ULL;
+        auto &l = ml_[k];
+        if (s_cnt != static_cast<uint64_t>(l.nS) || six != (l.nSIX > 0) || x != (l.nX > 0)) {
+          const bool conv = c.op == kUpgrade || c.op == kDowngrade;
+          Fail(conv ? "C10" : "C07", Fmt("lock-word-disagrees-with-guard-ownership-after-%s", kOpKNames[c.op]),
+               Fmt("after '%s' (no operation in flight) the guards that convert to true own S:%d SIX:%d X:%d on lock %d, but the lock word "
+                   "%016" PRIx64 " encodes S:%" PRIu64 " SIX:%d X:%d",
+                   what.c_str(), l.nS, l.nSIX, l.nX, k, word, s_cnt, static_cast<int>(six), static_cast<int>(x)));
+        }
+      }
+    } else {
+      (void)t;
+      (void)c;
+      (void)what;
+    }
   }
 
   // C09: right after an exclusive grant ended, with nothing else going on, the lock word must consist of the
